@@ -107,10 +107,29 @@ def obs_lit(pairs):
     return [six(res[12 * j:12 * j + 12]) for j in range(len(pairs))]
 
 
+def literal_bare(j):
+    """a literal as it is usually typed: a negative number with its sign and no brackets"""
+    if j['k'] in ('num', 'numup'):
+        return repr(py_value(j))
+    return literal(j)
+
+
+def obs_mix(pairs):
+    """the first operand lives in a cell (any kind, blank included), the second is typed into the formula: =A1>-1 and =-1<A1"""
+    consts, forms = {}, []
+    for j, (a, b) in enumerate(pairs):
+        if a['k'] != 'blank':
+            consts[(0, j)] = py_value(a)
+        lb = literal_bare(b)
+        forms += [f'=A{j + 1}{o}{lb}' for _, o in OPS] + [f'={lb}{o}A{j + 1}' for _, o in OPS]
+    res = repo.Probe(forms, consts).eval()
+    return [six(res[12 * j:12 * j + 12]) for j in range(len(pairs))]
+
+
 def _job(args):
     mode, pairs = args
     try:
-        return {'ovr': obs_ovr, 'cell': obs_cell, 'lit': obs_lit}[mode](pairs)
+        return {'ovr': obs_ovr, 'cell': obs_cell, 'lit': obs_lit, 'mix': obs_mix}[mode](pairs)
     except Exception as e:
         return {'harness_error': f'{type(e).__name__}: {e}'}
 
@@ -120,6 +139,8 @@ def in_mode(mode, a, b):
         return True
     if mode == 'cell':      # pure dates cannot be stored in a workbook cell (openpyxl delivers date-times)
         return a['k'] != 'day' and b['k'] != 'day'
+    if mode == 'mix':
+        return a['k'] != 'day' and literal(b) is not None
     return literal(a) is not None and literal(b) is not None
 
 
@@ -199,11 +220,15 @@ def gen(run):
     run.parts['pairs_pinned'] = sum(1 for x in recs if x['c'] in (-1, 0, 1))
     run.parts['pairs_laws_only'] = sum(1 for x in recs if x['c'] == 2)
     pairs = [(x['a'], x['b']) for x in recs]
-    obs = observe(run, pairs, ['ovr', 'cell', 'lit'])
+    obs = observe(run, pairs, ['ovr', 'cell', 'lit', 'mix'])
     judge_observations(run, obs, 'gen')
     # a sample through the public file path (xlsx -> Parser -> Executor(class_file))
     rng = random.Random(run.seed)
-    sample = [p for p in rng.sample(pairs, min(len(pairs), 40 if run.quick else 300)) if in_mode('cell', *p)]
+    # (the workbook writer stores a float with 15 significant digits: a value one ulp beside a short decimal does not survive the
+    # file and is left to the in-memory modes; the pairs are put in a canonical order first - TLC's workers export them in any order)
+    ordered = sorted(pairs, key=lambda ab: json.dumps(ab, sort_keys=True))
+    sample = [p for p in rng.sample(ordered, min(len(ordered), 40 if run.quick else 300))
+              if in_mode('cell', *p) and 'numup' not in (p[0]['k'], p[1]['k'])]
     sheets_cells, forms = {}, []
     for j, (a, b) in enumerate(sample):
         if a['k'] != 'blank':
@@ -286,6 +311,6 @@ def check(run):
 
 def replay(run, case):
     i = case['in']
-    mode = i['mode'] if i['mode'] in ('ovr', 'cell', 'lit') else 'cell'
+    mode = i['mode'] if i['mode'] in ('ovr', 'cell', 'lit', 'mix') else 'cell'
     obs = observe(run, [(i['a'], i['b'])], [mode])
     judge_observations(run, obs, 'replay')
